@@ -920,6 +920,11 @@ def call_builtin(I, fv: BoundV, args: list, kwargs: dict, st, node=None) -> list
         if isinstance(args[0], Text):
             return [(new_text(args[0].labels, "joined"), st)]
     if isinstance(recv, Term):
+        hook = I.probes.get("method:term")
+        if hook is not None:
+            r = hook(I, recv, name, args, kwargs, st, node)
+            if r is not None:
+                return r
         kw = tuple(sorted((k, freeze_term(I, v, st)) for k, v in kwargs.items()))
         return [(Term("." + name, (recv,) + tuple(freeze_term(I, a, st) for a in args) + ((("kw",) + kw,) if kw else ())), st)]
     if isinstance(recv, (SeqStr, CharSet)):
